@@ -133,6 +133,17 @@ pub fn verif_stop_after_reads(n: Option<u64>) {
     unsafe { VERIF_STOP_AFTER_READS = n; }
 }
 
+/// Verification hook (only with `--cfg suiron_verif`): the state word of the
+/// stop-query flag (query number in the upper bits, status in the lowest two).
+#[cfg(suiron_verif)]
+pub fn verif_query_state() -> u64 { QUERY_STATE.load(Ordering::SeqCst) }
+
+/// Verification hook (only with `--cfg suiron_verif`): what the timer thread does
+/// when the timer of the query which had state `state` at its start times out.
+/// Lets a test fire any timer - also a cancelled or superseded one - at any moment.
+#[cfg(suiron_verif)]
+pub fn verif_timer_timed_out(state: u64) { timer_timed_out(state); }
+
 #[cfg(test)]
 mod test {
 
